@@ -601,13 +601,27 @@ func renderRun(c *Case, r *Run, ctx map[string]interface{}) (o obs) {
 
 // probeEngine: whatever happened before, the engine must still be usable
 func probeEngine(e *twig.Engine, o *obs) {
-	if err := e.RegisterString("zzprobe", "p{{ 1 + 1 }}{% for i in [1, 2] %}{{ i }}{% endfor %}"); err != nil {
-		o.ok, o.kind, o.errMsg = false, "unusable", "probe register: "+err.Error()
-		return
+	// a render with several contexts alive at once: page -> include -> include -> macro call, and an inherited block
+	srcs := [][2]string{
+		{"zzprobe3", "{% macro mk(a) %}<{{ a }}>{% endmacro %}c{{ _self.mk(q) }}"},
+		{"zzprobe2", "b{% include 'zzprobe3' %}{{ q }}"},
+		{"zzbase", "[{% block bb %}base{% endblock %}]"},
+		{"zzchild", "{% extends 'zzbase' %}{% block bb %}k{{ parent() }}{% endblock %}"},
+		{"zzprobe", "p{{ 1 + 1 }}{% for i in [1, 2] %}{{ i }}{% include 'zzprobe2' with {'q': i} %}{% endfor %}{% include 'zzchild' %}"},
 	}
-	out, err := e.Render("zzprobe", map[string]interface{}{"q": 1})
-	if err != nil || out != "p212" {
-		o.ok, o.kind, o.errMsg = false, "unusable", fmt.Sprintf("probe render gave %q, %v", out, err)
+	for _, ns := range srcs {
+		if err := e.RegisterString(ns[0], ns[1]); err != nil {
+			o.ok, o.kind, o.errMsg = false, "unusable", "probe register: "+err.Error()
+			return
+		}
+	}
+	const want = "p21bc<1>12bc<2>2[kbase]"
+	for k := 0; k < 2; k++ {
+		out, err := e.Render("zzprobe", map[string]interface{}{"q": 1})
+		if err != nil || out != want {
+			o.ok, o.kind, o.errMsg = false, "unusable", fmt.Sprintf("probe render gave %q, %v (want %q)", out, err, want)
+			return
+		}
 	}
 }
 
